@@ -400,16 +400,18 @@ func runV2(c V2Case) (v *Violation, st v2Stats) {
 			st.nonCheckpointCommits++
 		}
 		tag := fmt.Sprintf("version %d", ver)
-		if !c.Quiet || lastVersion {
-			if x := checkContents(tr, m, tag, true); x != nil {
-				return x, st
-			}
-		}
+		// (the range queries come first: the lookups of checkContents pull every evicted node back into memory, and an
+		// iterator that has to load children itself is the case of interest right after a commit)
 		if vi < len(c.Queries) && (!c.Quiet || lastVersion) {
 			for _, q := range c.Queries[vi] {
 				if x := runQuery(tr, m, q, tag, true); x != nil {
 					return x, st
 				}
+			}
+		}
+		if !c.Quiet || lastVersion {
+			if x := checkContents(tr, m, tag, true); x != nil {
+				return x, st
 			}
 		}
 		if c.SnapshotAt == ver && c.Reload && wroot != nil { // (SaveSnapshot of an empty tree returns an error: not generated)
@@ -496,6 +498,15 @@ func runV2(c V2Case) (v *Violation, st v2Stats) {
 		}
 		st.reloads++
 		tag := fmt.Sprintf("reloaded version %d", target)
+		if int(target) <= len(c.Queries) {
+			// bounded queries on the freshly loaded tree, before anything else has pulled its nodes into memory
+			for _, q := range c.Queries[target-1] {
+				if x := runQuery(t2, m, q, tag, values); x != nil {
+					_ = t2.Close()
+					return x, st
+				}
+			}
+		}
 		if x := checkContents(t2, m, tag, values); x != nil {
 			_ = t2.Close()
 			return x, st
